@@ -1,13 +1,13 @@
 (* C32 obligation: powermod with an integer exponent: a^b mod |m| for b >= 0; for b < 0 the inverse of a^|b| when it is invertible and `false` otherwise *)
 From SE Require Import C32.NtSpec C32.NtProofsPowm.
 Local Open Scope Z_scope.
-Theorem C32_powermod_guarded :
+Theorem C32_powermod :
   forall (c : cfg) (a b m : Z),
-  (c = GMP /\ m <> 0) \/ 0 < m ->
+  m <> 0 ->
   (0 <= b -> nt_powermod c a b m = Ok (Some ((a ^ b) mod (Z.abs m)))) /\
   (b < 0 ->
    let p := (a ^ (- b)) mod (Z.abs m) in
    (Z.gcd p m = 1 -> exists x, nt_powermod c a b m = Ok (Some x) /\ is_inverse x p m) /\
    (Z.gcd p m <> 1 -> nt_powermod c a b m = Ok None)).
 Proof. exact powermod_correct. Qed.
-Print Assumptions C32_powermod_guarded.
+Print Assumptions C32_powermod.
